@@ -307,6 +307,9 @@ theorem maybeEnum_frames (s : Space) (b : String) : (s.maybeEnum b).2.frames = s
   unfold Space.maybeEnum
   split <;> rfl
 
+theorem maybeEnum_inv {s : Space} {b : String} (h : Inv s) : Inv (s.maybeEnum b).2 := by
+  unfold Inv; rw [maybeEnum_frames]; exact h
+
 theorem step_inv {s s' : Space} (op : Op) (h : Inv s) (hs : step s op = .ok s') : Inv s' := by
   cases op with
   | set n o => exact setitem_inv h hs
